@@ -61,6 +61,7 @@ def simple_events(db, proj):
 
 def main(tier):
     rep, bd, env, stats = qalg.run("C20", tier, "prod", "")
+    qalg.unknown_part(rep, bd, env, "prod", 20, tier == "thorough")
     thorough = tier == "thorough"
     rng = random.Random(common.seed() + 20)
     # (1) theorem of the specified rendering + negative control
